@@ -55,12 +55,12 @@ def _spec_values(spec):
             exts.add(e)
         if node["t"] == "f":
             sizes.add(len(node["c"].encode()) if "c" in node else node.get("size", 0))
-            mtimes.add(node.get("mtime", 0))
+            mtimes.add(int(node.get("mtime", 0) // 1))
             uids.add(node.get("uid", 0))
         elif node["t"] == "l":
             sizes.add(len(node["to"]))
         elif node["t"] == "d" and "mtime" in node:
-            mtimes.add(node["mtime"])
+            mtimes.add(int(node["mtime"] // 1))
     return sorted(sizes), sorted(names), sorted(exts), sorted(m for m in mtimes if m), sorted(uids)
 
 
